@@ -90,3 +90,22 @@ package pkcs7
 //@   assert at return: defined(rangeindex) && isnil(err) ==> rangeindex + 1 == NS
 //@   heapnonnil
 //@   modifies everything
+
+// ---- DER length octets (re-encoding BER to DER): lengthLength is the minimal number of octets that
+// hold the value - 256^(n-1) <= i < 256^n for n > 1, i < 256 for n = 1 - for every non-negative int
+//@ func lengthLength property C16
+//@   requires i >= 0
+//@   let I := i
+//@   ensures 1 <= numBytes && numBytes <= 8
+//@   ensures numBytes == 1 <==> I < 256
+//@   ensures numBytes == 2 <==> (256 <= I && I < 65536)
+//@   ensures numBytes == 3 <==> (65536 <= I && I < 16777216)
+//@   ensures numBytes == 4 <==> (16777216 <= I && I < 4294967296)
+//@   ensures numBytes == 5 <==> (4294967296 <= I && I < 1099511627776)
+//@   ensures numBytes == 6 <==> (1099511627776 <= I && I < 281474976710656)
+//@   ensures numBytes == 7 <==> (281474976710656 <= I && I < 72057594037927936)
+//@   ensures numBytes == 8 <==> 72057594037927936 <= I
+//@   modifies nothing
+//@   loop 1 invariant 1 <= numBytes && numBytes <= 8 && 0 <= i
+//@   loop 1 invariant (numBytes == 1 && i == I) || (numBytes == 2 && i == I / 256 && I >= 256) || (numBytes == 3 && i == I / 65536 && I >= 65536) || (numBytes == 4 && i == I / 16777216 && I >= 16777216) || (numBytes == 5 && i == I / 4294967296 && I >= 4294967296) || (numBytes == 6 && i == I / 1099511627776 && I >= 1099511627776) || (numBytes == 7 && i == I / 281474976710656 && I >= 281474976710656) || (numBytes == 8 && i == I / 72057594037927936 && I >= 72057594037927936)
+//@   loop 1 decreases i
